@@ -82,7 +82,10 @@ def directive(rng, arg):
 
 
 TEXTS = ["The road bends here.", "You hear water.", "", "   An indented remark.", "See the @include manual.",
-         "Nothing else happens.", "", "A door, half open."]
+         "Nothing else happens.", "", "A door, half open.",
+         # characters that str.splitlines() treats as line boundaries but that are ordinary characters of a .bard line
+         # (lines end at "\n" only): a form feed / vertical tab / file separator pasted into the prose
+         "Page\x0cbreak inside a line.", "Tab\x0bstop and sep\x1carator."]
 
 
 def gen_graph(rng, max_files):
@@ -928,6 +931,34 @@ def run(tier: str, seed: int) -> int:
                 before = dstats["graphs"]
                 diagnostic_provenance(chk, root, g, sub_seed, random.Random(sub_seed ^ 0x5EED), dstats, kinds_generic)
                 diag_generic_done += dstats["graphs"] - before
+            # (e) the files are read again on every compilation: after an included file was edited, and after it was
+            # deleted, a second resolution in the same process gives the substitution of the files AS THEY ARE NOW
+            if res[0] == "ok" and not g["wild"] and n_inc >= 1 and stats.get("recompiled", 0) < (40 if tier == "quick" else 400):
+                incs = [f for f in g["files"][1:] if os.path.exists(os.path.join(root, f["path"]))]
+                if incs:
+                    stats["recompiled"] = stats.get("recompiled", 0) + 1
+                    victim = os.path.join(root, random.Random(sub_seed).choice(incs)["path"])
+                    with open(victim, "a", encoding="utf-8", newline="") as fh:
+                        fh.write("\nEdited after the first compilation.\nSecond new line.")
+                    res2 = run_resolve(root, entry_abs)
+                    try:
+                        want = independent_subst(entry_abs)
+                    except Exception:  # noqa
+                        want = None
+                    if want is not None and (res2[0] != "ok" or res2[1].split("\n") != want):
+                        chk.report("recompile-after-edit-uses-stale-text",
+                                   "after an included file was edited, resolving the same entry file again in the same process "
+                                   f"does not give the substitution of the files on disk (outcome {res2[0]})",
+                                   dict(replay_of(g, sub_seed), edited=os.path.relpath(victim, root)))
+                    elif want is not None and len(res2[2]) != len(want):
+                        chk.report("recompile-after-edit-line-map-length", "the line map of the second resolution has "
+                                   f"{len(res2[2])} entries for {len(want)} lines", dict(replay_of(g, sub_seed)))
+                    os.remove(victim)
+                    res3 = run_resolve(root, entry_abs)
+                    if res3[0] != "missing":
+                        chk.report("recompile-after-delete-not-missing",
+                                   f"after an included file was deleted, resolving again gives {res3[0]} instead of FileNotFoundError",
+                                   dict(replay_of(g, sub_seed), deleted=os.path.relpath(victim, root)))
             shutil.rmtree(root, ignore_errors=True)
 
         # ---- string-level streams ----
